@@ -14,6 +14,10 @@ ALGOS = None
 
 
 def make(family, rng, tier):
+    if family == "chaos":
+        scn = sysgen.gen_chaos(rng, tier)
+        scn["oracles"] = ["stats"]
+        return scn
     if family == "uncontended":
         scn = sysgen.gen_uncontended(rng, tier)
         scn["oracles"] = ["uncontended", "stats"]
@@ -32,7 +36,8 @@ def plan(tier):
 
 def plan(tier):  # noqa: F811
     q = tier == "quick"
-    return [("sys", 4000 if q else 80000), ("gen", 400 if q else 8000), ("uncontended", 3000 if q else 50000)]
+    return [("sys", 4000 if q else 80000), ("gen", 400 if q else 8000), ("uncontended", 3000 if q else 50000),
+            ("chaos", 1000 if q else 20000)]
 
 
 WANT_PROBES = ["uncontended_checked", "empty_class", "nothing_arrived", "nothing_finished", "pipelines_completed"]
